@@ -316,3 +316,92 @@ Proof.
   destruct bs as [|b r]; [congruence|]. cbn [length chunks_of_fuel].
   rewrite (split_z_all (b :: r) mmhsum_buffer L). destruct (length r); reflexivity.
 Qed.
+
+(* ---------- order_independent_hash really is order independent ---------- *)
+From Coq Require Import Permutation.
+
+Definition line_hash_sum (lines : list (list Z)) : Z := fold_right (fun l acc => murmur64a l default_seed_64a + acc) 0 lines.
+
+Lemma oih_fold : forall lines s, 
+  fold_left (fun s l => w64 (s + murmur64a l default_seed_64a)) lines s mod two64 = (s + line_hash_sum lines) mod two64.
+Proof.
+  induction lines as [|l ls IH]; intros s; [simpl; rewrite Z.add_0_r; reflexivity|].
+  cbn [fold_left]. change (line_hash_sum (l :: ls)) with (murmur64a l default_seed_64a + line_hash_sum ls).
+  rewrite IH. rewrite w64_mod.
+  rewrite Z.add_mod_idemp_l by (unfold two64; lia). f_equal. lia.
+Qed.
+
+Lemma fold_w64_in_range : forall lines s, 0 <= s < two64 ->
+  0 <= fold_left (fun s l => w64 (s + murmur64a l default_seed_64a)) lines s < two64.
+Proof.
+  induction lines as [|l ls IH]; intros s R; [exact R|].
+  cbn [fold_left]. apply IH. rewrite w64_mod. apply Z.mod_pos_bound. reflexivity.
+Qed.
+
+Lemma order_independent_hash_sum lines : order_independent_hash lines = line_hash_sum lines mod two64.
+Proof.
+  unfold order_independent_hash.
+  pose proof (fold_w64_in_range lines order_independent_init ltac:(unfold order_independent_init, two64; lia)) as R.
+  rewrite <- (Z.mod_small _ _ R). rewrite oih_fold. reflexivity.
+Qed.
+
+Lemma line_hash_sum_perm l1 l2 : Permutation l1 l2 -> line_hash_sum l1 = line_hash_sum l2.
+Proof.
+  induction 1 as [|x l l' P IH|x y l|l l' l'' P1 IH1 P2 IH2]; [reflexivity| | |congruence].
+  - change (line_hash_sum (x :: l)) with (murmur64a x default_seed_64a + line_hash_sum l).
+    change (line_hash_sum (x :: l')) with (murmur64a x default_seed_64a + line_hash_sum l'). lia.
+  - change (line_hash_sum (y :: x :: l)) with (murmur64a y default_seed_64a + (murmur64a x default_seed_64a + line_hash_sum l)).
+    change (line_hash_sum (x :: y :: l)) with (murmur64a x default_seed_64a + (murmur64a y default_seed_64a + line_hash_sum l)). lia.
+Qed.
+
+Theorem order_independent_proof l1 l2 : Permutation l1 l2 -> order_independent_hash l1 = order_independent_hash l2.
+Proof. intros P. rewrite !order_independent_hash_sum, (line_hash_sum_perm l1 l2 P). reflexivity. Qed.
+
+(* ---------- mmhsum chains over buffer-sized chunks ---------- *)
+Lemma split_z_spec : forall bs n, 0 <= n ->
+  split_z n bs = (firstn (Z.to_nat n) bs, skipn (Z.to_nat n) bs).
+Proof.
+  induction bs as [|b r IH]; intros n P.
+  - simpl. rewrite firstn_nil, skipn_nil. reflexivity.
+  - cbn [split_z]. destruct (n <=? 0) eqn:E.
+    + replace n with 0 by lia. reflexivity.
+    + rewrite (IH (n - 1)) by lia. replace (Z.to_nat n) with (S (Z.to_nat (n - 1))) by lia. reflexivity.
+Qed.
+
+Lemma chunks_concat : forall fuel n bs, 1 <= n -> (length bs <= fuel)%nat ->
+  concat (chunks_of_fuel fuel n bs) = bs /\
+  Forall (fun ch => ch <> [] /\ Z.of_nat (length ch) <= n) (chunks_of_fuel fuel n bs) /\
+  Forall (fun ch => Z.of_nat (length ch) = n) (removelast (chunks_of_fuel fuel n bs)).
+Proof.
+  induction fuel as [|f IH]; intros n bs P L.
+  - destruct bs; [simpl; auto|simpl in L; lia].
+  - destruct bs as [|b r]; [simpl; auto|].
+    cbn [chunks_of_fuel]. rewrite split_z_spec by lia.
+    set (k := Z.to_nat n). assert (1 <= k)%nat as K by lia.
+    assert (length (skipn k (b :: r)) <= f)%nat as L'. { rewrite skipn_length. cbn [length] in *. lia. }
+    destruct (IH n (skipn k (b :: r)) P L') as (C & F & R).
+    split; [|split].
+    + cbn [concat]. rewrite C. apply firstn_skipn.
+    + constructor; [|exact F]. split.
+      * destruct k; [lia|]. simpl. discriminate.
+      * rewrite firstn_length. lia.
+    + destruct (chunks_of_fuel f n (skipn k (b :: r))) as [|c cs] eqn:CH; [constructor|].
+      change (removelast (firstn k (b :: r) :: c :: cs)) with (firstn k (b :: r) :: removelast (c :: cs)).
+      constructor; [|exact R].
+      (* there is a following chunk, so this one is full *)
+      assert (skipn k (b :: r) <> []) as NE.
+      { intros E. rewrite E in CH. destruct f; simpl in CH; discriminate. }
+      rewrite firstn_length. destruct (Nat.le_gt_cases k (length (b :: r))) as [LE|GT]; [lia|].
+      exfalso. apply NE. apply skipn_all2. lia.
+Qed.
+
+Theorem mmhsum_chain_proof bs : 
+  exists chunks, concat chunks = bs /\
+    Forall (fun ch => ch <> [] /\ Z.of_nat (length ch) <= mmhsum_buffer) chunks /\
+    Forall (fun ch => Z.of_nat (length ch) = mmhsum_buffer) (removelast chunks) /\
+    mmhsum bs = fold_left (fun h ch => murmur64a ch h) chunks 0.
+Proof.
+  exists (chunks_of_fuel (length bs) mmhsum_buffer bs).
+  destruct (chunks_concat (length bs) mmhsum_buffer bs ltac:(unfold mmhsum_buffer; lia) (Nat.le_refl _)) as (C & F & R).
+  repeat split; assumption || reflexivity.
+Qed.
